@@ -38,11 +38,22 @@ Theorem C06_json_single : forall ku ty p r t, plain_name ty -> valid_utf8 t -> t
   text_after_json_roundtrip ku ty p [(r, t)] = Ok [(NilRef, t)].
 Proof. exact json_single. Qed.
 
-(* --- JSON, language map: two or more entries with non-empty valid UTF-8 tags and texts come back entry for
-   entry, tags and order preserved (repeated tags included) *)
-Theorem C06_json_multi : forall ku ty p l, plain_name ty -> 2 <= length l -> Forall ok_entry l ->
+(* --- JSON, language map (pairwise distinct tags): two or more entries with non-empty valid UTF-8 tags and texts come
+   back entry for entry, tags and order preserved *)
+Theorem C06_json_multi : forall ku ty p l, plain_name ty -> 2 <= length l -> Forall ok_entry l -> NoDup (map fst l) ->
   text_after_json_roundtrip ku ty p l = Ok l.
 Proof. exact json_multi. Qed.
+Example C06_json_multi_hyps : Forall ok_entry [(B "en", B "hello"); (B "fr", B "salut")] /\ NoDup (map fst [(B "en", B "hello"); (B "fr", B "salut")]).
+Proof.
+  split; [repeat constructor; try discriminate; vm_compute; reflexivity|].
+  repeat constructor; simpl; intuition discriminate.
+Qed.
+(* a list that is not a map (one tag twice): since fix 05721dc the first value is the one written - the one Get returns -
+   because a JSON object holds one value per member name (C02); before, the member name was repeated *)
+Example C06_json_repeated_tag :
+  nlv_marshal [(B "en", B "a"); (B "en", B "b"); (B "fr", B "c")] = Some (B "{""en"":""a"",""fr"":""c""}") /\
+  nlv_marshal_nodedup [(B "en", B "a"); (B "en", B "b"); (B "fr", B "c")] = Some (B "{""en"":""a"",""en"":""b"",""fr"":""c""}").
+Proof. vm_compute. auto. Qed.
 
 (* --- gob: every list at every position, no carve-out.  encoding/gob itself is modelled as the identity on
    the []kv value (trusted base, compared with the real package on every run), so this theorem only says
